@@ -798,6 +798,7 @@ type refreshDebouncer struct {
 	timer        *time.Timer
 	refreshNowCh chan struct{}
 	quit         chan struct{}
+	done         chan struct{} // closed when the flusher has exited
 	refreshFn    func() error
 }
 
@@ -807,6 +808,7 @@ func newRefreshDebouncer(interval time.Duration, refreshFn func() error) *refres
 		broadcaster:  nil,
 		refreshNowCh: make(chan struct{}, 1),
 		quit:         make(chan struct{}),
+		done:         make(chan struct{}),
 		interval:     interval,
 		timer:        time.NewTimer(interval),
 		refreshFn:    refreshFn,
@@ -842,6 +844,7 @@ func (d *refreshDebouncer) refreshNow() <-chan error {
 }
 
 func (d *refreshDebouncer) flusher() {
+	defer close(d.done)
 	for {
 		select {
 		case <-d.refreshNowCh:
@@ -892,8 +895,12 @@ func (d *refreshDebouncer) stop() {
 	d.stopped = true
 	d.mu.Unlock()
 	verifPoint("rd.stop.marked")
-	d.quit <- struct{}{} // sync with flusher
+	// Wake the flusher and wait until it has exited. A send on quit would only be
+	// received if the flusher happens to pick that case: when it wakes up for a
+	// refresh request or the timer instead, it sees stopped and returns without
+	// ever receiving, and the sender would block forever.
 	close(d.quit)
+	<-d.done
 }
 
 // broadcasts an error to multiple channels (listeners)
